@@ -62,3 +62,69 @@ Print Assumptions confirmation_table.
 Theorem confirmation_non_interactive : forall dflt prefix script, ask_confirm false dflt prefix script = (CBool dflt, 0).
 Proof. exact confirm_non_interactive. Qed.
 Print Assumptions confirmation_non_interactive.
+
+(* ======================================================================================================================
+   What is WRITTEN (Model/QuestionText.v; the driver's entry run_C18T compares the whole text of the error output with
+   the implementation's).  The outcome is still decided by ask_choice / ask_confirm above; these theorems tie the text
+   layer to it. *)
+From Clikit Require Import Model.QuestionText Proofs.Question2Lemmas.
+
+(* The validator has an error message exactly for the entries it rejects. *)
+Theorem validator_message_iff_rejected : forall q s,
+  match validate q s with inr _ => validate_msg q s = None | inl _ => exists m, validate_msg q s = Some m end.
+Proof. exact validate_msg_agrees. Qed.
+Print Assumptions validator_message_iff_rejected.
+
+(* Every invalid entry prints ONE error, and nothing else is written: the whole error output is the prompt followed, for
+   every error counted by the outcome layer, by one error line and the prompt again; the number of prompts is one more. *)
+Theorem error_output_is_a_dialogue : forall q prompt script, q_attempts q <> Some 0 ->
+  exists msgs, fst (choice_text true q prompt script) = dialogue prompt msgs /\
+               length msgs = o_errors_printed (ask_choice true q script) /\
+               S (length msgs) = o_prompts (ask_choice true q script).
+Proof. exact choice_text_is_dialogue. Qed.
+Print Assumptions error_output_is_a_dialogue.
+
+(* A question that fails raises the message of an entry (the one that used up the budget). *)
+Theorem failure_carries_a_message : forall q prompt script er, q_attempts q <> Some 0 ->
+  o_end (ask_choice true q script) = Failed er -> exists m, snd (choice_text true q prompt script) = Some m.
+Proof. exact choice_failure_has_message. Qed.
+Print Assumptions failure_carries_a_message.
+
+(* ANY question on a non-interactive input writes nothing and reads nothing (choice, confirmation, plain). *)
+Theorem non_interactive_writes_nothing : forall q prompt question dflt p script,
+  choice_text false q prompt script = ([], None) /\ confirm_text false question dflt = [] /\
+  pt_text (ask_plain false question p script) = [] /\ pt_read (ask_plain false question p script) = 0 /\
+  pt_end (ask_plain false question p script) = Answered (plain_answer (p_default p)).
+Proof. intros. repeat split. Qed.
+Print Assumptions non_interactive_writes_nothing.
+
+(* The plain question with a validator counts attempts the same way: n rejected entries then an accepted one ... *)
+Theorem plain_question_rejected_then_accepted : forall question p acc bad good rest,
+  p_accept p = Some acc -> Forall (plain_rejected p acc) bad -> plain_check acc (plain_value p good) = None ->
+  (match p_attempts p with Some k => length bad < k | None => True end) ->
+  let r := ask_plain true question p (bad ++ good :: rest) in
+  pt_end r = Answered (plain_answer (plain_value p good)) /\ pt_read r = length bad + 1.
+Proof.
+  intros question p acc bad good rest Ha Hb Hg Hk. unfold ask_plain. cbn [negb]. rewrite Ha.
+  exact (plain_loop_until_valid p acc _ bad good rest (p_attempts p) None 0 Hb Hg Hk).
+Qed.
+Print Assumptions plain_question_rejected_then_accepted.
+(* ... and it fails after exactly the configured number of attempts, with the validator's message. *)
+Theorem plain_question_attempts_exact : forall question p acc bad rest,
+  p_accept p = Some acc -> Forall (plain_rejected p acc) bad -> bad <> [] -> p_attempts p = Some (length bad) ->
+  let r := ask_plain true question p (bad ++ rest) in
+  pt_end r = Failed VInvalid /\ pt_read r = length bad /\ pt_msg r <> None.
+Proof.
+  intros question p acc bad rest Ha Hb Hne Hk. unfold ask_plain. cbn [negb]. rewrite Ha, Hk.
+  exact (plain_loop_budget p acc _ bad rest None 0 Hb Hne).
+Qed.
+Print Assumptions plain_question_attempts_exact.
+
+(* not vacuous: a three-entry script against a limit of three, with the text it writes *)
+Example dialogue_nonvacuous :
+  let q := {| q_choices := [[97%N]; [98%N]]; q_multi := false; q_default := None; q_attempts := Some 3 |} in
+  let script := [[120%N]; []; [55%N]; [48%N]] in
+  o_end (ask_choice true q script) = Failed VInvalid /\ o_lines_read (ask_choice true q script) = 3 /\
+  snd (choice_text true q [63%N] script) = Some (msg_invalid [55%N]) /\
+  fst (choice_text true q [63%N] script) = dialogue [63%N] [msg_invalid [120%N]; msg_none].
+Proof. vm_compute. repeat split. Qed.
